@@ -169,8 +169,13 @@ class ScriptedEnv(gym.Env):
     metadata = {"render_modes": []}
 
     def __init__(self, env_id: int = 0, obs_kind: str = "box1", act_kind: str = "discrete", script=None,
-                 delay: float = 0.0, check_actions: bool = True):
+                 delay: float = 0.0, check_actions: bool = True, info_mode: str = "fresh"):
         super().__init__()
+        # "fresh": a new info dict per step (what ordinary envs do); "reuse": ONE dict object for the env's
+        # lifetime, updated in place and returned from every step() -- legal, and keys written into it by the
+        # library (terminal_observation, TimeLimit.truncated, episode) then survive into later steps
+        self.info_mode = info_mode
+        self._info = {}
         self.env_id = env_id
         self.obs_kind = obs_kind
         self.act_kind = act_kind
@@ -209,7 +214,12 @@ class ScriptedEnv(gym.Env):
         in_space = bool(self.action_space.contains(action)) if self.check_actions else None
         self.log.append(["step", np.asarray(action).tolist(), tag, float(rew), bool(term), bool(trunc), in_space,
                          str(np.asarray(action).dtype)])
-        info = {"tag": tag, "k": self.n_steps}
+        if self.info_mode == "reuse":
+            self._info["tag"] = tag
+            self._info["k"] = self.n_steps
+            info = self._info
+        else:
+            info = {"tag": tag, "k": self.n_steps}
         if term or trunc:
             self.needs_reset = True
         return encode(tag, self.obs_kind), float(rew), bool(term), bool(trunc), info
